@@ -261,6 +261,25 @@ def reflect(repo: str) -> dict:
     from exabgp.bgp.message.update.eor import EOR
 
     out['EOR_PREFIX'] = list(EOR.EOR_NLRI.PREFIX)
+    # AIGP (RFC 7311): the length of the AIGP TLV and the smallest TLV the walk of from_packet accepts
+    from exabgp.bgp.message.update.attribute.aigp import AIGPBase
+
+    out['AIGP_TLV_LENGTH'] = _int(AIGPBase._TLV_LENGTH, 'AIGPBase._TLV_LENGTH')
+    atree = ast.parse(open(os.path.join(repo, 'src/exabgp/bgp/message/update/attribute/aigp.py')).read())
+    fns = [n for n in ast.walk(atree) if isinstance(n, ast.FunctionDef) and n.name == 'from_packet']
+    if len(fns) != 1:
+        raise Untranslatable('AIGPBase.from_packet not found (or defined twice)')
+    mins = sorted({c.comparators[0].value for c in ast.walk(fns[0]) if isinstance(c, ast.Compare) and len(c.ops) == 1
+                   and isinstance(c.ops[0], ast.Lt) and isinstance(c.comparators[0], ast.Constant)
+                   and ast.unparse(c.left) in ('tlv_length', 'len(data) - offset')})
+    if mins != [3]:
+        raise Untranslatable(f'AIGPBase.from_packet: the TLV header size tests are not `< 3`: {mins}')
+    types = sorted({c.comparators[0].value for c in ast.walk(fns[0]) if isinstance(c, ast.Compare) and ast.unparse(c.left) == 'tlv_type'
+                    and isinstance(c.comparators[0], ast.Constant)})
+    if types != [1]:
+        raise Untranslatable(f'AIGPBase.from_packet: the AIGP TLV type is not 1: {types}')
+    out['AIGP_TLV_HDR'] = 3
+    out['AIGP_TLV_TYPE'] = 1
     return out
 
 
@@ -290,7 +309,7 @@ def generate(repo: str) -> str:
     L.append('(* Operational.registered_operational: code -> category (1 advisory, 2 query, 3 counter, 0 other) *)')
     L.append('Definition operational_table : list (Z * Z) := [' + '; '.join(f'({c}, {k})' for c, k in rf['ops']) + '].')
     for k in ('OPEN_MIN', 'OPEN_FIXED', 'BGP_4', 'EXTENDED_LENGTH', 'P_AUTH', 'P_CAPS', 'MIN_PARAM', 'MIN_EXT_PARAM',
-              'NOTIF_HEADER', 'SHUT_MAX', 'UPD_HDR', 'UPD_WOFF', 'EOR4', 'EORP'):
+              'NOTIF_HEADER', 'SHUT_MAX', 'UPD_HDR', 'UPD_WOFF', 'EOR4', 'EORP', 'AIGP_TLV_LENGTH', 'AIGP_TLV_HDR', 'AIGP_TLV_TYPE'):
         L.append(f'Definition {k} : Z := {rf[k]}.')
     L.append('Definition EOR_PFX : list Z := [' + '; '.join(str(b) for b in rf['EOR_PREFIX']) + '].')
     return '\n'.join(L) + '\n'
